@@ -69,9 +69,11 @@ Definition modelled_overrides : list (cls * string) :=
     (CCat, "to"); (CCat, "device"); (CInterpolated, "to"); (CMasked, "to");
     (CPermutation, "to"); (CPermutation, "dtype"); (CTransposePermutation, "type"); (CTransposePermutation, "dtype");
     (CTransposePermutation, "device") ].
-(* (the overrides added by the repairs of the pinned tree's findings - Zero.to / Zero.type / Permutation.to - are now
-   transcribed by the model: nothing is tolerated without being modelled) *)
-Definition repair_overrides : list (cls * string) := [].
+(* the overrides added by the repairs of the pinned tree's findings - Zero.to / Zero.type / Permutation.to - are now
+   transcribed by the model.  Tolerated without being modelled yet: the two overrides that the proposed repair of the
+   remaining permutation findings adds (proposed_fixes/C14-perm-nominal-dtype: the nominal dtype becomes a constructor
+   keyword; Permutation.type and TransposePermutation.to rebuild with it) *)
+Definition repair_overrides : list (cls * string) := [ (CPermutation, "type"); (CTransposePermutation, "to") ].
 (* the overrides Model.meth_call / dtype_of rely on: they must still be there *)
 Definition required_overrides : list (cls * string) :=
   [ (CIdentity, "to"); (CIdentity, "type"); (CIdentity, "dtype"); (CZero, "to"); (CZero, "type"); (CZero, "dtype");
